@@ -10,8 +10,11 @@
 #  (3) byte level: utf-8 / latin-1 samples through a raw io.RawIOBase with short readinto, all partitions.
 # Field splitting belongs to another area (Csv.v): for quoted policies the model's split function is a finite table
 # (line -> fields, warning) obtained from csv_utils.smart_split for exactly the logical rows the MODEL asks for.
+import importlib
 import itertools
+import sys
 import lib
+c12tl = importlib.import_module('props.c12tl')
 
 ALPHA = 'a",\n\r# '
 THEOREM = 'C12_records / C12_lines / C12_rfc_balance (Props/C12.v): run_py cfg cs pieces = records_of_text cfg (concat pieces)'
@@ -336,6 +339,9 @@ def run(ctx):
     ctx.stat('invalid_utf8_samples', len(inv))
     ctx.sample_safe(lambda: {'bytes': bcases[0]['data'], 'encoding': bcases[0]['encoding'], 'spec': b_exp[0], 'implementation_outcomes_over_all_partitions': b_got[0]})
 
+    # (4) the text-layer model (TextLayer.v) against CPython's decoder objects, io.TextIOWrapper and the reader over bytes
+    c12tl.run(ctx, sys.modules[__name__])
+
 
 def single_table(c, text):
     """split table for one case, asking the implementation's smart_split"""
@@ -350,6 +356,8 @@ def single_table(c, text):
 
 
 def replay(ctx, case):
+    if case.get('part') == 'tl':
+        return c12tl.replay(ctx, case, sys.modules[__name__])
     kind = case.get('kind')
     if kind in ('all', 'bytes_all'):
         exp, args, model, have, _ = expected_for([case], ctx)
